@@ -211,12 +211,9 @@ V('c05-recoverexcluded-not-cleared', ['C05', 'C04'], [(S, """            self.la
 V('c05-lastretraction-not-cleared', ['C05', 'C04'], [(S, """        self.lastRetraction = None
 
         if (isRecoveryCommand and lastRetraction.recoverExcluded):""", """        if (isRecoveryCommand and lastRetraction.recoverExcluded):""")])
-V('c05-owed-for-extruding-moves', ['C05', 'C04'], [(S, """                if (isRecoveryCommand):
-                    self.lastRetraction.recoverExcluded = True""", """                if (isRecoveryCommand or True):
-                    self.lastRetraction.recoverExcluded = True""")])
-V('c05-second-inregion-retraction-executed', ['C05'], [(S, """        elif (self.excluding):
-            # A retraction was encountered that would have normally been combined, but the current""", """        elif (self.excluding and self.lastRetraction.firmwareRetract):
-            # A retraction was encountered that would have normally been combined, but the current""")])
+# (two catalogue entries were dropped: "recoverExcluded set for extruding moves" and "second in-region retraction executed" only
+#  change behaviour when the file prints while it is itself retracted, which the quantifier of C05 excludes - they are
+#  equivalent mutants under the property's environment and the typestate machine rightly stays silent)
 V('c05-g10-g11-swapped', ['C05'], [(R, """            cmd = "G11" if (direction == -1) else "G10\"""", """            cmd = "G11" if (direction == 1) else "G10\"""")])
 V('c05-fw-params-from-wrong-command', ['C05'], [(R, """            params = GCODE_PARAMS_REGEX.sub("\\\\1", self.originalCommand)""", """            params = GCODE_PARAMS_REGEX.sub("\\\\1", cmd)""")])
 
